@@ -342,7 +342,7 @@ LONG_STRINGS = (4093, 65533, 65600, 131070)    # strings around 4 KiB, 64 KiB an
 from harness import c12 as C12
 
 HARNESSES = [
-    H('h16_4_counted_blocks_in_expressions', C12.h_one_op, lambda tier: [c for c in C12._one_op_instances(tier) if any('blob' in sh for sh in c.get('shapes', []))], expect=('ok', 'rejected'),
+    H('h16_4_counted_blocks_in_expressions', C12.h_one_op, lambda tier: [c for c in C12._one_op_instances(tier) if any('blob' in sh for sh in c.get('shapes', []))], expect=('ok',),
       desc='length-prefixed blocks inside expressions (implicit_value, typed constants, entry_value): block lengths 0.. incl. the empty block, read by read_blob (harness shared with C12)'),
     H('h16_1_leb128', h_leb,
       lambda tier: [dict(n=n, signed=s) for s in (False, True) for n in range(0, (17 if tier == 'quick' else 25))],
